@@ -34,7 +34,7 @@ import threading
 
 import vlib
 
-FULL = dict(IntCls=["min32", "m1", "0", "1", "max32", "max32p1", "min32m1"], BigCls=["min64", "max64", "0", "2p32"],
+FULL = dict(IntCls=["min32", "m1", "0", "1", "max32", "max32p1", "min32m1", "min64", "max64"], BigCls=["min64", "max64", "0", "2p32"],
             StrCls=["l0", "l1", "f399", "f400", "f401"])
 RED = dict(IntCls=["min32", "max32", "max32p1"], BigCls=["min64", "max64"], StrCls=["l0", "f400", "f401"])
 RED2 = dict(IntCls=["min32", "min32m1"], BigCls=["max64"], StrCls=["f400", "f401"])
